@@ -94,6 +94,35 @@ def confirm(src, sid):
     finally:
         sh(f"git -C /repo worktree remove --force {repo}; rm -rf {wt}; git -C /repo worktree prune")
 
+def run_isolated(sid, props):
+    """Like `run`, but on scratch worktrees of /repo HEAD and /verif HEAD (so the working trees stay usable)."""
+    d = f"/verif/seeded/{sid}"
+    meta = json.load(open(os.path.join(d, "meta.json")))
+    props = props or [meta["property"]]
+    base = f"/tmp/sdr-{sid}"
+    sh(f"git -C /repo worktree remove --force {base}/repo; git -C /verif worktree remove --force {base}/verif; rm -rf {base}; git -C /repo worktree prune; git -C /verif worktree prune")
+    os.makedirs(base)
+    rc, out = sh(f"git -C /repo worktree add --detach {base}/repo HEAD"); assert rc == 0, out
+    rc, out = sh(f"git -C /verif worktree add --detach {base}/verif HEAD"); assert rc == 0, out
+    sh(f"sed -i 's#=> /repo#=> {base}/repo#' {base}/verif/go.mod")
+    res = {}
+    try:
+        rc, out = sh(f"git -C {base}/repo apply {d}/patch.diff"); assert rc == 0, out
+        for p in props:
+            t0 = time.time()
+            rc, out = sh(f"VERIF_DIR={base}/verif ./check {p} quick", cwd=f"{base}/verif", timeout=3000)
+            viol = [l for l in out.splitlines() if l.startswith("VIOLATION")]
+            sigs = [l.strip() for l in out.splitlines() if l.strip().startswith("signature:")]
+            res[p] = {"exit": rc, "detected": rc == 1 and len(viol) > 0, "violations": [v.replace(base, "") for v in viol[:5]], "signatures": sigs[:5],
+                      "wall_s": round(time.time() - t0, 1), "tail": out[-500:], "ran_on": "scratch worktrees of /repo HEAD and /verif HEAD"}
+            print(p, "exit", rc, "detected" if res[p]["detected"] else "MISSED", sigs[:3])
+    finally:
+        sh(f"git -C /repo worktree remove --force {base}/repo; git -C /verif worktree remove --force {base}/verif; rm -rf {base}; git -C /repo worktree prune; git -C /verif worktree prune")
+    rj = os.path.join(d, "result.json")
+    old = json.load(open(rj)) if os.path.exists(rj) else {}
+    old.update(res)
+    json.dump(old, open(rj, "w"), indent=1)
+
 def main():
     if sys.argv[1] == "confirm":
         src, sid = sys.argv[2], sys.argv[3]
@@ -109,6 +138,8 @@ def main():
         meta["confirmed_by_harness_owner"] = log
         json.dump(meta, open(os.path.join(dst, "meta.json"), "w"), indent=1)
         print("CONFIRMED ->", dst)
+    elif sys.argv[1] == "irun":
+        run_isolated(sys.argv[2], sys.argv[3:])
     elif sys.argv[1] == "run":
         sid = sys.argv[2]
         d = f"/verif/seeded/{sid}"
